@@ -25,7 +25,7 @@ def _vals(shape, dt, lo=-1.3, hi=1.3):
     for d in shape:
         n *= d
     i = torch.arange(n, dtype=torch.float64)
-    v = lo + (hi - lo) * ((i * 37) % 101) / 100.0 + i * 1e-3
+    v = lo + (hi - lo) * ((i * 37) % 101) / 100.0 + (i if n <= 4096 else i % 1009) * 1e-3
     if n > 2:
         v[0] = 0.0
     return v.reshape(shape).to(dt)
@@ -50,10 +50,21 @@ INITIALS = {
 }
 
 
+# size ladder: large initial tensors (explored to depth 1 over the whole event menu plus a short fixed walk)
+BIG_INITIALS = {
+    "big_act_i8": ("act", "qint8", (1031, 1032), "float32", None),
+    "big_act_e4m3": ("act", "qfloat8_e4m3fn", (3, 520, 700), "float16", None),
+    "big_w_i8_ax0": ("w", "qint8", (1031, 1032), "float32", (0, None)),
+    "big_w_e4m3_axm1": ("w", "qfloat8_e4m3fn", (1032, 1031), "float16", (-1, None)),
+    "big_w_i4_g128": ("w", "qint4", (1030, 2048), "float32", (0, 128)),
+    "big_w_i2_ax0": ("w", "qint2", (1031, 1032), "float16", (0, None)),
+}
+
+
 def make_initial(name):
     from optimum.quanto import quantize_activation, quantize_weight
 
-    kind, qname, shape, dtname, extra = INITIALS[name]
+    kind, qname, shape, dtname, extra = (INITIALS.get(name) or BIG_INITIALS[name])
     dt = num.DTYPES[dtname]
     x = _vals(shape, dt)
     if kind == "act":
@@ -717,6 +728,12 @@ def compare(res, ref, regime, K, args_tw, out_q=None):
         ok = (a - b).abs() <= tol
     else:
         raise ValueError(regime)
+    if regime in ("trans", "accum", "accum_rel"):
+        # equal values (including equal infinities) agree; at the overflow boundary of the dtype one rounding or another
+        # summation order decides between the largest finite value and infinity
+        fmax = torch.finfo(ref.dtype).max
+        t_ = tol if regime != "trans" else 16 * u * b.abs()
+        ok = ok | (a == b) | (torch.isinf(a) & (b.abs() + t_ >= fmax) & (torch.sign(a) == torch.sign(b))) | (torch.isinf(b) & (a.abs() + t_ >= fmax) & (torch.sign(a) == torch.sign(b)))
     if bool(ok.all()):
         return None
     i = tuple((~ok).nonzero()[0].tolist())
@@ -911,6 +928,69 @@ def expand_task(task):
     return results
 
 
+def ladder_task(task):
+    """Depth ladder (mode 'long': one fixed long program - events drawn from the enabled menu by a linear congruential sequence with
+    fixed constants - from a small initial tensor) and size ladder (mode 'large': every enabled event once on a large initial
+    tensor, then a short fixed walk). Every step goes through the same run_transition oracle as the breadth-first search."""
+    init, mode, tier = task["init"], task["mode"], task.get("tier", "quick")
+    recs = []
+
+    def record(history, ev, q, o):
+        src = {"cls": type(q).__name__, "qtype": q.qtype.name, "axis": q.axis, "pertensor": q.axis is None}
+        recs.append({"init": init, "history": [list(e) for e in history], "ev": list(ev), "status": o["status"], "c05": o["c05"][:3], "c06": o["c06"][:3], "outcome": o["outcome"], "src": src})
+
+    def menu(q):
+        evs = events(q, tier)
+        if q.numel() > 4096:
+            # reshapes of a large tensor: keep a handful of factorizations (the first, the last and three in between)
+            rs = [e for e in evs if e[0] in ("view", "reshape")]
+            keep = set()
+            if rs:
+                idx = sorted({0, len(rs) // 4, len(rs) // 2, 3 * len(rs) // 4, len(rs) - 1, len(rs) - 2})
+                keep = {id(rs[i]) for i in idx if 0 <= i < len(rs)}
+            evs = [e for e in evs if e[0] not in ("view", "reshape") or id(e) in keep]
+        return evs
+
+    history = []
+    q = make_initial(init)
+    if task.get("only") is not None:
+        hist = [tuple(tuple(x) if isinstance(x, list) else x for x in e) for e in task["only"]["history"]]
+        ev = tuple(tuple(x) if isinstance(x, list) else x for x in task["only"]["event"])
+        q = rebuild(init, hist)
+        record(hist, ev, q, run_transition(q, ev))
+        return recs
+    if mode == "large":
+        for ev in menu(q):
+            qq = rebuild(init, []) if ev[0] in MUTATING else q
+            _journal(repr({"init": init, "history": [], "event": list(ev)}))
+            record([], ev, qq, run_transition(qq, ev))
+        q = make_initial(init)
+    x = 99991 + 7919 * task.get("path", 0)
+    maxn = task.get("max_numel", 256)
+    for _ in range(task["length"]):
+        evs = menu(q)
+        nxt = None
+        for _try in range(6):
+            x = (x * 1103515245 + 12345) % (1 << 31)
+            ev = evs[(x >> 8) % len(evs)]
+            _journal(repr({"init": init, "history": [list(e) for e in history], "event": list(ev)}))
+            o = run_transition(q, ev)
+            if o["status"] == "skip":
+                continue
+            record(history, ev, q, o)
+            n = o["next"]
+            if ev[0] in MUTATING and (n is None or o["c05"] or o["c06"]):
+                q = rebuild(init, history)  # the in-place event may have damaged the current object
+            if n is not None and not o["c06"] and 0 < n.numel() <= maxn and n.ndim <= 4 and n.device.type != "meta":
+                nxt = (ev, n)
+                break
+        if nxt is None:
+            continue
+        history = history + [nxt[0]]
+        q = nxt[1]
+    return recs
+
+
 # ---------------------------------------------------------------------------------------
 # BFS driver (runs in the master)
 # ---------------------------------------------------------------------------------------
@@ -1011,11 +1091,46 @@ def bfs(ctx, which, depth, tier, pid, max_numel=64, max_rank=4):
                             nxt.append((st["init"], st["history"] + [tr["ev"]], tr["hash"]))
         levels.append({"depth": level + 1, "expanded_states": len(frontier), "new_states": len(nxt)})
         frontier = nxt
+    # ---- depth and size ladders (fixed long programs / large initial tensors), same oracle, no de-duplication
+    ltasks = []
+    for name in INITIALS:
+        for p in range(2 if tier == "quick" else 6):
+            ltasks.append({"mode": "long", "init": name, "path": p, "length": 40 if tier == "quick" else 150, "tier": tier})
+    for name in BIG_INITIALS:
+        ltasks.append({"mode": "large", "init": name, "path": 0, "length": 6 if tier == "quick" else 20, "tier": tier, "max_numel": 1 << 22})
+    ladder_steps = {"long": 0, "large": 0}
+    lres = ctx.map("ladder_task", ltasks, label="ladders")
+    for task, (kind, val) in zip(ltasks, lres):
+        if kind == "crash":
+            j = val.get("journal")
+            try:
+                jc = ast.literal_eval(j) if j else None
+            except Exception:
+                jc = None
+            case = jc or {"init": task["init"], "history": [], "event": None}
+            if which == "c05":
+                agg.violations.append(violation(pid, dict(case, ladder=task), {"kind": which, "sub": "worker_crash", "op": (case.get("event") or ["?"])[0]},
+                                                f"worker_crash: a worker died (signal {val.get('signal')}) in the {task['mode']} ladder while executing {case}"))
+            continue
+        for tr in val:
+            if tr["status"] == "skip":
+                continue
+            transitions += 1
+            ladder_steps[task["mode"]] += 1
+            src = tr["src"]
+            ops_seen.setdefault(tr["ev"][0], set()).add(src["cls"])
+            outcomes[tr["outcome"]] = outcomes.get(tr["outcome"], 0) + 1
+            for m in tr[which]:
+                f = {"kind": which, "sub": _sub(m), "op": tr["ev"][0], "src_cls": src["cls"], "src_qtype": src["qtype"], "src_pertensor": src["pertensor"]}
+                agg.violations.append(violation(pid, {"init": tr["init"], "history": tr["history"], "event": tr["ev"]}, f,
+                                                f"{_sub(m)}: {tr['ev']} on {src['cls']}({src['qtype']},axis={src['axis']}) after {tr['history']} from {tr['init']} ({task['mode']} ladder): {m}"))
     agg.points = len(seen)
     agg.calls = transitions
     agg.evals = transitions
     agg.nontrivial = sum(n for k, n in outcomes.items() if k not in ("ref_invalid",))
     cov = {
+        "ladders": {"long_program_steps": ladder_steps["long"], "long_programs": sum(1 for t in ltasks if t["mode"] == "long"), "large_tensor_steps": ladder_steps["large"],
+                    "large_initial_tensors": {k: list(v[2]) for k, v in BIG_INITIALS.items()}},
         "states": len(seen),
         "transitions": transitions,
         "traces_validated_against_impl": transitions,
